@@ -3,6 +3,7 @@ package main
 import (
 	"fmt"
 	"go/ast"
+	"go/constant"
 	"go/token"
 	"go/types"
 	"sort"
@@ -2149,4 +2150,82 @@ func init() {
 	registry["C14"].Rules = append(registry["C14"].Rules, func(c *Ctx, r *Result) { widthArmRule(c, r, "C14.19", 3) })
 	registry["C11"].Meta.Rules["C11.22"] = txt + " (shared with C14.19)"
 	registry["C11"].Rules = append(registry["C11"].Rules, func(c *Ctx, r *Result) { widthArmRule(c, r, "C11.22", 3) })
+}
+
+// ---- every Decision's Confidence comes from calculateConfidence (C19.9) ----
+func init() {
+	registry["C19"].Meta.Rules["C19.9"] = "the confidence a Decision carries is the one that was computed: module wide, every store to Decision.Confidence takes the result of calculateConfidence (whose range C19.4 bounds), the Confidence of another Decision, or a constant in [0,1] (the read-heavy rule reporting features.OperationRate as its confidence returns 20 or 2500)"
+	registry["C19"].Rules = append(registry["C19"].Rules, func(c *Ctx, r *Result) {
+		n := 0
+		for _, fn := range c.LibFuncs() {
+			k := 0
+			instrs(fn, func(in ssa.Instruction) {
+				st, ok := in.(*ssa.Store)
+				if !ok {
+					return
+				}
+				fa, ok := st.Addr.(*ssa.FieldAddr)
+				if !ok {
+					return
+				}
+				f, base := fieldOfAddr(fa)
+				if f == nil || fieldKey(base.Type(), f) != "rebalancing.Decision.Confidence" {
+					return
+				}
+				n++
+				k++
+				seen := map[ssa.Value]bool{}
+				var good func(v ssa.Value) bool
+				good = func(v ssa.Value) bool {
+					if seen[v] {
+						return true
+					}
+					seen[v] = true
+					switch x := v.(type) {
+					case *ssa.Const:
+						if x.Value != nil && (x.Value.Kind() == constant.Float || x.Value.Kind() == constant.Int) {
+							fv, _ := constant.Float64Val(x.Value)
+							return fv >= 0 && fv <= 1
+						}
+					case *ssa.Call:
+						if cal := x.Call.StaticCallee(); cal != nil {
+							return c.Name(cal) == "rebalancing.RuleBasedStrategy.calculateConfidence"
+						}
+					case *ssa.Phi:
+						for _, e := range x.Edges {
+							if !good(e) {
+								return false
+							}
+						}
+						return true
+					case *ssa.UnOp:
+						if x.Op == token.MUL {
+							if fa2, ok := x.X.(*ssa.FieldAddr); ok {
+								f2, b2 := fieldOfAddr(fa2)
+								return f2 != nil && fieldKey(b2.Type(), f2) == "rebalancing.Decision.Confidence"
+							}
+						}
+					case *ssa.Field:
+						return x.X.Type().String() == modPath+"/internal/rebalancing.Decision" && f.Name() == "Confidence" && x.Field == fieldIndexOf(x.X.Type(), "Confidence")
+					}
+					return false
+				}
+				r.Check(good(st.Val), "C19.9", fmt.Sprintf("%s#confidence-store-%d", c.Name(fn), k), c.InstrPos(st), "the stored Confidence is calculateConfidence's result, another Decision's Confidence, or a constant in [0,1]")
+			})
+		}
+		if n < 8 {
+			r.Shortfall(c, "C19.9", fmt.Sprintf("C19.9: only %d stores to Decision.Confidence found (expected >= 8)", n))
+		}
+	})
+}
+
+func fieldIndexOf(t types.Type, name string) int {
+	if st, ok := t.Underlying().(*types.Struct); ok {
+		for i := 0; i < st.NumFields(); i++ {
+			if st.Field(i).Name() == name {
+				return i
+			}
+		}
+	}
+	return -1
 }
